@@ -9,7 +9,7 @@ provide bodies.  Run i (1 <= i <= K(program)) raises a fresh exception at invoca
 
 Oracle per faulted run (DESIGN C06):
  (1) the exception escaping the render IS the injected object (identity, class unchanged),
-     for exception payloads Boom("boom"), Boom() and KeyError(7) (non-string argument);
+     for exception payloads Boom("boom"), Boom(), KeyError(7) (non-string argument) and a two-line message;
  (2) the six module registries are exactly as before (empty); the caller's
      render_context depth is restored; _metadata_stack of every component instance is empty;
  (3) sentinels passed as context value / kwarg / slot function are dead after dropping the
@@ -49,8 +49,8 @@ B3 = dict(B, comps=("a",), fixed_comps=("c",), provide_keys=("k", "m"), slot_nam
 
 def bounds(tier):
     if tier == "thorough":
-        return {"parts": [("mixed", B, 4, 0), ("two_comps", B2, 4, 0), ("providers", B3, 5, 0)], "growth_max_size": 3, "payloads": 3}
-    return {"parts": [("mixed", B, 3, 0), ("two_comps", B2, 4, 3), ("providers", B3, 4, 0)], "growth_max_size": 2, "payloads": 3}
+        return {"parts": [("mixed", B, 4, 0), ("two_comps", B2, 4, 0), ("providers", B3, 5, 0)], "growth_max_size": 3, "payloads": 4}
+    return {"parts": [("mixed", B, 3, 0), ("two_comps", B2, 4, 3), ("providers", B3, 4, 0)], "growth_max_size": 2, "payloads": 4}
 
 
 class Sentinel:
@@ -163,7 +163,10 @@ def unregister(prog):
             registry.unregister(name)
 
 
-PAYLOADS = [("Boom('boom')", lambda B: B("boom")), ("Boom()", lambda B: B()), ("KeyError(7)", lambda B: KeyError(7))]
+PAYLOADS = [("Boom('boom')", lambda B: B("boom")), ("Boom()", lambda B: B()), ("KeyError(7)", lambda B: KeyError(7)),
+            ("Boom('first line\\nsecond line')", lambda B: B("first line\nsecond line"))]
+# the text the user gave the exception: the annotation may put the component path in front of it, nothing of it may be lost
+PAYLOAD_TEXT = {"Boom('boom')": "boom", "Boom('first line\\nsecond line')": "first line\nsecond line", "KeyError(7)": "7"}
 
 _ID_RE = re.compile(r"\b" + boot.ID_PATTERN + r"\b")
 
@@ -356,6 +359,10 @@ def _check_program(prog, mode, agg, growth_max_size, payloads, sample, side):
                     if val is not PLAN.raised:
                         fail("replaced", f"raised {type(PLAN.raised).__name__} at {site}, but {type(val).__name__}: {str(val)[:120]!r} escaped", target, pl_name)
                         continue
+                    want_text = PAYLOAD_TEXT.get(pl_name)
+                    got_text = str(val.args[0]) if val.args else ""
+                    if want_text is not None and not got_text.endswith(want_text):
+                        fail("message-altered", f"the exception raised at {site} said {want_text!r}; what escapes says {got_text!r} (the component path may be put in front, nothing may be lost)", target, pl_name)
                 agg.observe((site, st, type(val).__name__))
                 # (2) registries / stacks / caller context
                 snap = {k: v for k, v in boot.registries_snapshot().items() if v}
